@@ -430,7 +430,7 @@ def e2e_level(ctx, quick):
     ctx.extra['F8_unwritten_tau_cells_read'] = f8_reads
 
 
-def run(ctx):
+def _run(ctx):
     quick = ctx.tier == 'quick'
     status = biv.generate_q(ctx)
     need = ['clayton_dom', 'frank_dom', 'gumbel_dom']
@@ -463,3 +463,16 @@ def run(ctx):
                         'proximity of regular vines beyond tree 3 and "no pair conditioned twice" for regular vines are not proved in general: checked per run by valid_vine',
                         'statistical content (which family is selected, quality of theta) is C10/C11; here only: the edge stores what select_copula returned and theta passes check_theta',
                         'the k-th tree (k >= 2) of a regular vine is NOT claimed to be a maximum spanning tree (get_tau_matrix writes tau of edge i alone into row i, F8)']
+
+
+def run(ctx):
+    """the check proper, then the re-fit history oracle on the real class (always, also after a broken translation)"""
+    from .. import extra_oracles
+    try:
+        _run(ctx)
+    finally:
+        try:
+            extra_oracles.vine_history(ctx, ('structure',))
+        except Exception as ex:       # the oracle itself must never hide the result of the check proper
+            ctx.obligation('oracle:extra:raised', False, 'correspondence', repr(ex))
+            ctx.violation('oracle:extra:raised:' + type(ex).__name__, 'history oracle raised ' + repr(ex), {'repro': '# see tools/vf/extra_oracles.py'})
